@@ -77,7 +77,14 @@ def evaluate(fam, case, drv_answer: str, np_rng, n_inputs: int = 5) -> dict:
     rec["oracle"] = None
     if impl.startswith("fire"):
         feeds = [hst.make_feeds(np_rng) for _ in range(getattr(fam, "n_inputs", n_inputs))]
-        status, detail = L.oracle(before, after, feeds, exact=fam.exact, prefer=getattr(fam, "prefer", "ort"), tol=getattr(fam, "tol", None))
+        prefer = fam.prefer_for(case) if hasattr(fam, "prefer_for") else getattr(fam, "prefer", "ort")
+        status, detail = L.oracle(before, after, feeds, exact=fam.exact, prefer=prefer, tol=getattr(fam, "tol", None))
+        if status == "before_invalid" and hasattr(fam, "post_check"):
+            bad = fam.post_check(case, after, feeds)
+            if bad:
+                status, detail = "after_error", bad
+            else:
+                status, detail = "same", "post_check (no runtime for the original)"
         rec["oracle"] = status
         rec["oracle_detail"] = detail
         if status in ("same", "differ", "after_error"):
